@@ -183,7 +183,7 @@ def locate_rlib(ctx):
     cmd = ["cargo", "build", "--offline", "--quiet", "--message-format=json", "--target-dir", ctx["harness_target_dir"]]
     if os.path.exists(os.path.join(ctx["root"], "harness", "src", "bin", "emlv-C20.rs")):
         cmd += ["--bin", "emlv-C20"]      # one binary per property: only ours (and easy-ml) is needed
-    rc, out, err = ctx["sh"](cmd, cwd=os.path.join(ctx["root"], "harness"), check=False, env=env, timeout=1800)
+    rc, out, err = ctx["sh"](cmd, cwd=ctx.get("harness_dir") or os.path.join(ctx["root"], "harness"), check=False, env=env, timeout=1800)
     if rc != 0:
         raise ctx["MachineryError"]("cargo build (to locate the rlib) failed:\n" + err[-3000:])
     rlib = None
@@ -486,7 +486,7 @@ def main():
     import verif
     path = sys.argv[2]
     verif.build_harness("C20")
-    ctx = {"env": verif.ENV, "sh": verif.sh, "root": ROOT, "harness_target_dir": verif.harness_target_dir(),
+    ctx = {"env": verif.ENV, "sh": verif.sh, "root": ROOT, "harness_target_dir": verif.harness_target_dir(), "harness_dir": verif.harness_dir(),
            "MachineryError": verif.MachineryError}
     rlib, deps = locate_rlib(ctx)
     rule, expect = parse_header(path)
